@@ -435,7 +435,10 @@ def resize(catalog, ratio=None, psfhelper=None):
             if has_psf:
                 catbeam = Beam(src.psf_a / 3600, src.psf_b / 3600, src.psf_pa)
             else:
-                catbeam = Beam(*psfhelper.get_psf_sky2sky(src.ra, src.dec))
+                # the psf is nan for positions that are not on the sky of
+                # the image projection: such sources are skipped below
+                psf = psfhelper.get_psf_sky2sky(src.ra, src.dec)
+                catbeam = Beam(*psf) if np.all(np.isfinite(psf)) else None
             imbeam = psfhelper.get_skybeam(src.ra, src.dec)
             # If either of the above are None then we skip this source.
             if catbeam is None or imbeam is None:
